@@ -377,7 +377,44 @@ func c03GenWrapTargeted(r *vrand) (pairs [][2]int64, memLen int64, ok bool) {
 	return pairs, memLen, true
 }
 
+// Every class fills its share exactly: regionCap = 100 * k * (product of the strides), so each budget
+// regionCap*pct/100 is a multiple of its stride and the classes use the mapping to the last byte
+// (len(mem) == 8 + sum(36 + n_i*(size_i+20))); also one byte more and one byte less.
+func c03GenExactFitAll(r *vrand) (pairs [][2]int64, memLen int64, delta int64) {
+	n := 1 + r.intn(3)
+	prod := int64(1)
+	strides := make([]int64, n)
+	for i := range strides {
+		strides[i] = bufferHeaderSize + 1 + int64(r.intn(64))
+		prod *= strides[i]
+	}
+	maxK := (16 << 20) / (100 * prod)
+	if maxK < 1 {
+		maxK = 1
+	}
+	k := c03LogUniform(r, 1, maxK)
+	rc := 100 * prod * k
+	ps, _ := c03Percents(r, n, true)
+	sum := int64(0)
+	for _, p := range ps {
+		sum += p
+	}
+	ps[0] += 100 - sum // the valid mode may also produce sum < 100; make it 100
+	for i := 0; i < n; i++ {
+		pairs = append(pairs, [2]int64{strides[i] - bufferHeaderSize, ps[i]})
+	}
+	if r.chance(40) {
+		delta = int64(r.intn(3)) - 1
+	}
+	memLen = rc + bufferManagerHeaderSize + int64(n)*bufferListHeaderSize + delta
+	return
+}
+
 func c03GenBM(r *vrand) (pairs [][2]int64, memLen int64, fill byte, gen string) {
+	if r.chance(4) {
+		ps, ml, d := c03GenExactFitAll(r)
+		return ps, ml, []byte{0, 0xFF, 0xA5}[r.intn(3)], fmt.Sprintf("mem exact, unsorted, sum=100, every class fills its share exactly (%+d byte)", d)
+	}
 	if r.chance(4) {
 		if ps, ml, ok := c03GenWrapTargeted(r); ok {
 			return ps, ml, 0, "mem large, unsorted, wrapping percent aimed at the bounds checks"
